@@ -380,7 +380,7 @@ pub fn subs() -> Vec<Box<dyn DynSub>> {
 }
 
 pub fn run(ctx: &Ctx) {
-    let n = ctx.n(3_000_000, 50_000_000);
+    let n = ctx.n(3_000_000, 150_000_000);
     ctx.run_prop(&Construct, n);
     ctx.run_prop(&Pairs, n);
     ctx.run_prop(&Edit, 2 * n);
